@@ -80,6 +80,21 @@ func (t *verifTransport) RoundTrip(req *http.Request) (*http.Response, error) {
 		return resp(500, []byte(`{"message":"Server Error"}`), "application/json"), nil
 	case "conn":
 		return nil, errors.New("verif: connection refused")
+	case "403rate":
+		// what GitHub answers to an unauthenticated client that has used up its quota
+		r := resp(403, []byte(`{"message":"API rate limit exceeded for 203.0.113.7. (But here's the good news: Authenticated requests get a higher rate limit. Check out the documentation for more details.)","documentation_url":"https://docs.github.com/rest/overview/resources-in-the-rest-api#rate-limiting"}`), "application/json")
+		r.Header.Set("X-RateLimit-Limit", "60")
+		r.Header.Set("X-RateLimit-Remaining", "0")
+		r.Header.Set("X-RateLimit-Reset", "4102444800")
+		return r, nil
+	case "403":
+		return resp(403, []byte(`{"message":"Forbidden"}`), "application/json"), nil
+	case "401":
+		return resp(401, []byte(`{"message":"Bad credentials"}`), "application/json"), nil
+	case "429":
+		r := resp(429, []byte(`{"message":"You have exceeded a secondary rate limit. Please wait a few minutes before you try again."}`), "application/json")
+		r.Header.Set("Retry-After", "60")
+		return r, nil
 	}
 	var body []byte
 	var err error
